@@ -7,6 +7,9 @@ Mirrors, function for function:
 * `Keeper.CalculateExchangeSplit`      x/exchange/keeper/keeper.go:236 (per coin)
 * `Keeper.CalculateCommitmentSettlementFee` x/exchange/keeper/commitments.go:280 (arithmetic part)
 * `SplitCoinByBips`                    x/msgfees/types/fee.go:15
+* `FeeGasMeter.ConsumeFee` / `FeeConsumedDistributions`  internal/antewrapper/fee_gas_meter.go:115,140
+  (keyed maps `Tally`, `tallyAdd`), the router's consumption internal/handlers/msg_service_router.go:264-283,
+  `DeductFeesDistributions` x/msgfees/keeper/keeper.go:140 (the sends)
 -/
 import PvModel.IntMath
 import PvModel.Util
@@ -182,9 +185,9 @@ msg type (`Keeper.AddMsgFee` / `UpdateMsgFee`, basis points through `DetermineBi
 x/msgfees/keeper/keeper.go:306); for every message the msg service router computes that message's
 distribution (`CalculateAdditionalFeesToBePaid(ctx, msg)`, keeper.go:197 — one `Increase` for the
 stored fee of the type and one for an assessed custom fee) and tallies its parts in the fee gas
-meter under (msg type, recipient) (internal/handlers/msg_service_router.go:259-283,
-`FeeGasMeter.ConsumeFee`); after the messages `FeeConsumedDistributions` folds the tallies per
-recipient (fee_gas_meter.go:140, adding) and `DeductFeesDistributions` (keeper.go:140) pays every
+meter's map under (msg type, recipient) (internal/handlers/msg_service_router.go:259-283,
+`FeeGasMeter.ConsumeFee`); after the messages `FeeConsumedDistributions` folds the tallies into a
+map per recipient (fee_gas_meter.go:140, adding) and `DeductFeesDistributions` (keeper.go:140) pays every
 recipient its coins and sweeps the rest of the fee to the fee collector. -/
 
 /-- `DetermineBips(recipient, recipientBasisPoints)`; `bs = none` is the empty string. -/
@@ -262,21 +265,96 @@ def msgCalls (rate : Nat) (stored : List StoredFee) (m : PayMsg) : Except AErr (
     | .error e, _ => .error e
     | _, .error e => .error e
 
-/-- the router and the fee gas meter: every message's own distribution is computed from an empty
-one and its recipient parts are added to the tallies; the per-recipient fold keeps every tally
-(a `Ledger`: a recipient's payout is the sum of its entries). -/
-def payRoute (rate : Nat) (stored : List StoredFee) : List PayMsg → Except AErr Ledger
-  | [] => .ok []
+/-! ### the fee gas meter's keyed tallies
+
+`FeeGasMeter.usedFees` (internal/antewrapper/fee_gas_meter.go:30) and the map
+`FeeConsumedDistributions` returns (fee_gas_meter.go:140) are Go maps with `sdk.Coins` values that
+are ADDED to (`m[k] = m[k].Add(c...)`; a missing key reads as the empty coins). They are modelled
+as association lists with at most one entry per key; the order of the entries carries no meaning
+(Go iterates `usedFees` in map order, the payout sorts the keys) and is never observed: every
+statement about a tally is about `tallyGet`. -/
+
+/-- a Go `map[κ]sdk.Coins` -/
+abbrev Tally (κ : Type) := List (κ × Coins)
+
+/-- `m[k]` (the empty coins when `k` is not a key) -/
+def tallyGet {κ : Type} [DecidableEq κ] : Tally κ → κ → Coins
+  | [], _ => []
+  | (k', c) :: rest, k => if k' = k then c else tallyGet rest k
+
+/-- `m[k] = m[k].Add(c...)`: add to the entry of `k` when there is one, insert otherwise -/
+def tallyAdd {κ : Type} [DecidableEq κ] : Tally κ → κ → Coins → Tally κ
+  | [], k, c => [(k, c)]
+  | (k', c') :: rest, k, c =>
+    if k' = k then (k', c'.add c) :: rest else (k', c') :: tallyAdd rest k c
+
+/-- a sequence of `m[k] = m[k].Add(c...)` statements on a map -/
+def tallyAddAll {κ : Type} [DecidableEq κ] (t : Tally κ) (calls : List (κ × Coins)) : Tally κ :=
+  calls.foldl (fun t kc => tallyAdd t kc.1 kc.2) t
+
+/-- `FeeGasMeter.usedFees`: keyed by `GetCompositeKey(msgType, recipient)`
+(x/msgfees/types/keys.go:39, `msgType` alone when there is no recipient, else
+`msgType "\n" recipient`); the model keeps the pair (type URLs contain no line feed, so the
+composite string determines the pair). -/
+abbrev FeeMeter := Tally (String × String)
+
+/-- `FeeGasMeter.ConsumeFee(amount, msgType, recipient)` (fee_gas_meter.go:115). -/
+def consumeFee (g : FeeMeter) (amount : Coins) (msgType recipient : String) : FeeMeter :=
+  tallyAdd g (msgType, recipient) amount
+
+/-- the keys of `MsgFeesDistribution.RecipientDistributions`: every recipient once (the router
+takes them sorted; the order is not observable in the tallies' sums). -/
+def recipKeys : Ledger → List Addr
+  | [] => []
+  | e :: rest => e.addr :: (recipKeys rest).filter (· ≠ e.addr)
+
+/-- `RecipientDistributions[recipient]` -/
+def recipCoins (l : Ledger) (r : Addr) : Coins :=
+  (l.filter (·.addr = r)).map fun e => (e.denom, e.amt)
+
+/-- what the msg service router does with ONE message's distribution
+(internal/handlers/msg_service_router.go:264-283): nothing when there are no additional fees;
+otherwise the module's part is consumed under the empty recipient (when there is one) and every
+recipient's coins under (msg type, recipient). -/
+def routeConsume (g : FeeMeter) (typ : String) (d : FeeDist) : FeeMeter :=
+  if d.total.isZero then g
+  else
+    let g1 := if d.module.isEmpty then g else consumeFee g d.module typ ""
+    (recipKeys d.recips).foldl (fun g r => consumeFee g (recipCoins d.recips r) typ r) g1
+
+/-- the router over the messages of the transaction, in order: every message's own distribution
+is computed from an empty one (`CalculateAdditionalFeesToBePaid(ctx, msg)`) and consumed into the
+meter. -/
+def payMeter (rate : Nat) (stored : List StoredFee) (g : FeeMeter) : List PayMsg → Except AErr FeeMeter
+  | [] => .ok g
   | m :: rest =>
     match msgCalls rate stored m with
     | .error e => .error e
     | .ok cs =>
       match distIncreaseAll {} cs with
       | .error e => .error e
-      | .ok d =>
-        match payRoute rate stored rest with
-        | .error e => .error e
-        | .ok l => .ok (d.recips ++ l)
+      | .ok d => payMeter rate stored (routeConsume g m.typ d) rest
+
+/-- `FeeGasMeter.FeeConsumedDistributions` (fee_gas_meter.go:140): the tallies folded per
+address key (`SplitCompositeKey`), ADDING to what the key already has; the empty key is the fee
+module's. -/
+def feeConsumedDistributions (g : FeeMeter) : Tally String :=
+  tallyAddAll [] (g.map fun e => (e.1.2, e.2))
+
+/-- the sends of `DeductFeesDistributions` (x/msgfees/keeper/keeper.go:140): every key of the map
+is sent its coins once (sorted key order there; the order does not matter for balances). The empty
+key is the fee collector, which appears in the ledger under the address `""`; the final sweep of
+the unsent fee to the fee collector is not part of this ledger (the driver derives it from the
+fee). -/
+def deductDistributions (fees : Tally String) : Ledger :=
+  fees.flatMap fun kc => Ledger.entries kc.1 kc.2
+
+/-- the route of one transaction's additional fees: router -> fee gas meter ->
+`FeeConsumedDistributions` -> `DeductFeesDistributions`. `.ok` carries the sends. -/
+def payRoute (rate : Nat) (stored : List StoredFee) (msgs : List PayMsg) : Except AErr Ledger :=
+  match payMeter rate stored [] msgs with
+  | .error e => .error e
+  | .ok g => .ok (deductDistributions (feeConsumedDistributions g))
 
 /-- one transaction: configuration, `ValidateBasic` of the messages, the route. `.ok` carries the
 recipients' payouts. -/
